@@ -48,11 +48,11 @@ def run(r):
     r.rule = RULE
     load_own_findings(r)
     r.assumptions = [
-        "the serialised value of an object is opaque to the emission model (C09 models the serialiser); the model covers header, object framing, position counter, xref table, trailer; c03_writer_output_valid proves ValidPdf(emit ..) for all object lists under BodyOk (each body reads back with the checker's value reader up to the writer's endobj; streams carry the exact direct /Length; references name written ids) - BodyOk is not derived from C09.ser, it is evaluated per produced file",
+        "the serialised value of an object is opaque to the emission model (C09 models the serialiser); the model covers header, object framing, position counter, xref table, trailer; c03_writer_output_valid proves ValidPdf(emit ..) for all object lists under BodyOk (each body reads back with the checker's value reader up to the writer's endobj; streams carry the exact direct /Length; references name written ids) - BodyOk IS derived for the bytes of the C09 serialiser model (c03_bodyok_of_ser: parse_obj reads ser esc_iso v ++ tail back as cv v for every value with hex bytes < 256 and name bytes in 1..255; c03_writer_output_valid_ser states validity with every body = ser esc_iso v or such a dictionary + stream); that the REAL bodies are the model's ser of some value is C09's correspondence, per produced file validity is evaluated (valid_pdf)",
         "Document -> object list is not modelled: it is recovered from each produced file and validated by byte-for-byte re-emission",
         "xref-stream table decoding (inflate, /W) is done by the harness; object streams are judged by the library's strict re-open only",
         "encrypted configurations are excluded (C05); image names (unvalidated entry point) are irregular one time in two - white space, delimiters, #, non-ASCII - and must leave the file valid (names are #XX-escaped since fix_name_escape)",
         "model is of the tree with fix_c03_xref_stream_filter.patch and fix_c03_objstm_needs_xref_stream.patch applied",
     ]
-    return standard(r, "c03", ["theories/C03/WriterProofs.vo", "theories/C03/Full.vo", "theories/C03/Case.vo"], ["theories/C03/Case.vo"], CHANNELS,
+    return standard(r, "c03", ["theories/C03/WriterProofs.vo", "theories/C03/Full.vo", "theories/C03/BodyOfSer.vo", "theories/C03/Case.vo"], ["theories/C03/Case.vo"], CHANNELS,
                     classify=classify, pre=corpus)
